@@ -191,6 +191,50 @@ DOC_TEMPLATES = ["{c}", "para {c} text", "# head {c}", "> quote {c}", "- item {c
                  "# <![CDATA[ > <img src=x {c} \" ]]>\n\n.. toc::", "# <?x > <img src=x {c} \" ?>\n\n```{{toc}}\n```", "x <!-- > <i {c} ' -->\n===\n\n.. toc::", "## a <b title=\">\"> <img {c}>\n\n```{{toc}}\n```",
                  ".. image:: p.png\n   :width: 1\" {c} data-x=\"%\n   :height: 5{c}%", "```{{figure}} p.png\n:width: 10\" {c} \"%\n:figwidth: 1{c}%\n```", "``` {c} {c}\nx\n```", "~~~ \"{c}\nx\n~~~"]
 
+# every directive with an option line for every option key, including keys that collide with the names of token attributes
+# (what a directive copies from its options onto the token must not displace the fields the renderer trusts)
+OPTION_KEYS = ["name", "class", "title", "alt", "width", "height", "align", "target", "id", "level", "figclass", "figwidth", "collapse", "min-level", "max-level",
+               "depth", "src", "href", "url", "style", "onclick", "raw", "text", "type", "children", "start", "checked", "lang", "info", "key", "index", "rt", "legend", "caption"]
+OPTION_SWEEP = []
+OPTION_DIRECTIVES = [("note", "T"), ("warning", ""), ("tip", "T {c}"), ("danger", "Title"), ("image", "p.png"), ("figure", "p.png"), ("toc", "Contents"), ("include", "x.md")]
+for _d, _t in OPTION_DIRECTIVES:
+    for _k in OPTION_KEYS:
+        OPTION_SWEEP.append(("rst", ".. %s:: %s\n   :%s: {c}\n\n   body\n\n# h" % (_d, _t, _k)))
+        OPTION_SWEEP.append(("fenced", "```{%s} %s\n:%s: {c}\n\nbody\n```\n\n# h" % (_d, _t, _k)))
+
+
+def option_sweep(ctx, cfgs):
+    """deterministic: every (directive, option key) pair once per tier with a random canary, under an escaping configuration with that directive syntax"""
+    by = {}
+    for c in cfgs:
+        if c.get("escape", True) and c.get("directives") in ("rst", "fenced") and c.get("renderer", "html") == "html":
+            by.setdefault(c["directives"], []).append(c)
+    made = {}
+    n = 0
+    for syn, tpl in OPTION_SWEEP:
+        if not by.get(syn):
+            continue
+        c = ctx.rng.choice(by[syn])
+        if c["name"] not in made:
+            try:
+                made[c["name"]] = configs.make(c)
+            except Exception:
+                made[c["name"]] = None
+        md = made[c["name"]]
+        if md is None:
+            continue
+        doc = tpl.replace("{c}", ctx.rng.choice(CANARIES)) + "\n"
+        try:
+            out = md(doc)
+        except Exception:
+            continue
+        n += 1
+        bad, urls = analyse(out)
+        if bad:
+            where = "unknown-directive" if ("unknown" in doc and 'class="error"' in out) else ("block_error" if 'class="error"' in out else "doc")
+            ctx.fail("inject-doc:" + where, "escape=True config %s: input text reaches the output as markup (%s) for %r" % (c["name"], bad[0], doc), {"config": c, "doc": doc, "output": out[:600]})
+    return n
+
 SCHEMES = ["javascript:alert(1)//data:image/png;", "vbscript:x#data:image/gif;", "data:text/html,x#data:image/jpeg;base64", "file:///etc/passwd?data:image/webp;", "javascript:data:image/png;base64,AA", "data:image/svg+xml;base64,AA", "data:text/html;base64,AA", "file:///usr/share/doc/x", "file:///etc/passwd", "javascript:void(0)", "javascript:void(1)", "javascript:alert(1)", "JaVaScRiPt:alert(1)", "vbscript:x", "file:///etc/passwd", "data:text/html,<x>", "data:image/png;base64,AA", " javascript:x", "java\tscript:x",
            "javascript&colon;x", "javascript&#58;x", "javascript&#x3a;x", "&#106;avascript:x", "java&#x73;cript:x", "javascript&amp;colon;x", "javascript&amp;#58;x", "&amp;#106;avascript:x",
            "\x01javascript:x", "JAVASCRIPT&Colon;x", "javascript%3Ax", "data&colon;text/html,x", "Data:x", "FILE:x", "vbscript&NewLine;:x", "java&Tab;script:x", "javascript&amp;amp;colon;x"]
@@ -299,6 +343,7 @@ def run(ctx):
     n0 = tmpltie.stage(ctx, docs if q else docs[:3000], [c for c in esc_cfgs + noesc if c.get("allow_harmful") is None])    # (the model renders with the default scheme lists)
     n1 = token_level(ctx, docs, esc_cfgs)
     n2 = doc_level(ctx, 5000 if q else 80000, esc_cfgs + noesc)
+    n2 += option_sweep(ctx, esc_cfgs)
     n2 += api_level(ctx, 150 if q else 3000)
     if ctx.broken and not [f for f in ctx.failures if not ctx.is_known(f["signature"])]:
         ctx.notes.append("search mode entered")
